@@ -7,17 +7,18 @@
    Subscript/Attribute node around the visited sub-terms (no raw Python value is ever put in a node
    slot: the model has no branch that builds a [Raw] node); the dispatch surface of the class is the
    one the model's rule bodies assume.
+   The whole-algorithm theorem [simp_no_crash] (Proofs/SimplifyTotal.v): for every fuel, every
+   well-formed substitution stack, every counter and every well-formed query the model never returns
+   [Crash], and an [Ok] result is again well-formed - in particular it contains no raw slot, so it
+   can be unparsed and compiled.  [IndexErr] (see above) and [OutOfFuel] are the only other outcomes.
    What is NOT proved (kept visible):
-       simp_no_crash :
-         forall fuel st bd c e, wf_query e -> wf_stack st ->
-           match simp fuel st bd c e with Crash _ => False | Ok (e', _) => wf_query e' | _ => True end.
-       termination (the algorithm re-visits its own output; fuel is explicit).
-   Both are exercised by the correspondence (model Crash/OutOfFuel vs implementation exception /
-   RecursionError) and the validity oracle (unparse + compile) of harness/props/c18.py. *)
+       termination - the algorithm re-visits its own output; fuel is explicit and [OutOfFuel] is
+       excluded by the statement.  It is exercised by the correspondence (model OutOfFuel vs
+       implementation RecursionError) of harness/props/c18.py only. *)
 From FA.Base Require Import PyAst Value Traverse.
 From FA.Gen Require Import TablesSimp.
 From FA.Model Require Import Simplify.
-From FA.Proofs Require Import SimplifyFacts SimplifyPkg.
+From FA.Proofs Require Import SimplifyFacts SimplifyPkg SimplifyTotal.
 
 Theorem index_error_exactly_out_of_range : forall es n,
   match seq_project es n with
@@ -66,12 +67,44 @@ Theorem absent_attribute_left_intact : forall f st bd c v a ks vs c1,
 Proof. exact absent_attr_step. Qed.
 Print Assumptions absent_attribute_left_intact.
 
+(* the headline: no crash, and well-formed in => well-formed out, for every fuel/stack/counter *)
+Theorem simp_no_crash : forall fuel st bd c e,
+  wfq e = true -> (forall x v, stack_lookup x st = Some v -> wfq v = true) ->
+  match simp fuel st bd c e with
+  | Ok (e', _) => wfq e' = true
+  | Crash _ => False
+  | IndexErr | OutOfFuel => True
+  end.
+Proof. intros fuel st bd c e Hw Hst. exact (SimplifyTotal.simp_no_crash fuel st bd c e Hw Hst). Qed.
+Print Assumptions simp_no_crash.
+
+Theorem simplify_no_crash : forall fuel c e,
+  wfq e = true ->
+  match simplify fuel c e with
+  | Ok (e', _) => wfq e' = true
+  | Crash _ => False
+  | IndexErr | OutOfFuel => True
+  end.
+Proof. intros fuel c e Hw. exact (SimplifyTotal.simp_no_crash fuel [[]] [] c e Hw wfst_empty). Qed.
+Print Assumptions simplify_no_crash.
+
+(* well-formed trees contain no raw slot, at any depth *)
+Theorem wfq_no_raw : forall c, wfq (Raw c) = false.
+Proof. reflexivity. Qed.
+
 Theorem dispatch_surface : simp_call_handlers = ["Select"; "SelectMany"; "Where"]
                         /\ simp_visit_handlers = ["Attribute"; "Call"; "Lambda"; "Name"; "Subscript"].
 Proof. split; [exact handlers_pinned | exact visitors_pinned]. Qed.
 Print Assumptions dispatch_surface.
 
 (* ---------- non-vacuity ---------- *)
+Example wfq_holds_somewhere :
+  wfq (function_call "Where" [function_call "Select" [Name "ds"; Lambda ["e"] (Tuple [Attr (Name "e") "a"; Subscript (Name "e") (Name "i")])];
+                              Lambda ["t"] (Compare (Subscript (Name "t") (Const (CInt 0))) [CGt] [Const (CInt 0)])]) = true
+  /\ wfq (function_call "Select" [Name "ds"]) = false          (* too few arguments: rejected by the hypothesis, crashes the code *)
+  /\ wfq (Call (Lambda ["f"] (Call (Name "f") [Const (CInt 1)] [] [])) [Name "Select"] [] []) = false.   (* operator name as a value *)
+Proof. repeat split; vm_compute; reflexivity. Qed.
+
 Definition tup3 := Tuple [Const (CInt 1); Const (CInt 2); Const (CInt 3)].
 Example odd_selectors_run :
      simplify 50 0 (Subscript tup3 (Name "i")) = Ok (Subscript tup3 (Name "i"), 0)
